@@ -248,3 +248,9 @@ Lemma k9_witness :
   | Failed _ => False
   end.
 Proof. vm_compute. repeat split. Qed.
+
+Lemma k9_returns : exists out log, k9_out = Modified out log.
+Proof.
+  pose proof k9_witness as (_ & _ & W).
+  destruct k9_out as [out log|f]; [eauto | contradiction].
+Qed.
